@@ -184,10 +184,13 @@ Definition add_port (s : state) (k : portkind) (o : nat) (n : name) (w : nat) : 
     let s := set_oinout s (upd (oinout s) o (match k with PInOut => oinout s o ++ [q] | _ => oinout s o end)) in
     (set_nport s (S q), Ok).
 
-(* Wire.rename / reparent / reparentAndRename:
-     del self.parent._wires[self.name]      (KeyError if that key is absent; removes WHATEVER wire is stored there)
+(* Wire.rename / reparent / reparentAndRename (after /repo commit a702577):
+     if <new name> in <new parent>._wires: raise      (tested FIRST: nothing has been changed; note that this also
+                                                       raises when the wire is moved onto its own current slot)
+     del self.parent._wires[self.name]                (KeyError if that key is absent)
      self.name = newname ; self.parent = newparent
-     newparent.appendWire(self)             (raises on a duplicate: the wire is then in no table at all) *)
+     newparent.appendWire(self)                       (its duplicate test is still executed; Proofs/C11/Conflict.v
+                                                       shows it can no longer fire) *)
 Definition move (s : state) (w : nat) (np : option nat) (nn : option name) : state * outcome :=
   if negb (w <? nwire s) then (s, BadRef)
   else
@@ -196,6 +199,7 @@ Definition move (s : state) (w : nat) (np : option nat) (nn : option name) : sta
     let p' := match np with Some x => x | None => p end in
     let n' := match nn with Some x => x | None => n end in
     if negb (p' <? nobj s) then (s, BadRef)
+    else if tmem (owires s p') n' then (s, Raise (CWire p' n'))
     else if negb (tmem (owires s p) n) then (s, Raise (CKey p n))
     else
       let s1 := set_owires s (upd (owires s) p (tdel (owires s p) n)) in
@@ -226,11 +230,11 @@ Inductive ires := IOk | IRaise | IFuel.
 Definition memb (x : nat) (l : list nat) : bool := existsb (Nat.eqb x) l.
 
 (* in-port loop: source == None -> raise; then checkPort(source): the source port must be in its
-   parent's inPorts or outPorts (inOutPorts is NOT looked at) *)
+   parent's inPorts, outPorts or inOutPorts (after /repo commit 0845e1f) *)
 Definition in_bad (s : state) (q : nat) : bool :=
   match wsource s (pwire s q) with
   | None => true
-  | Some sp => negb (memb sp (oin s (pparent s sp)) || memb sp (oout s (pparent s sp)))
+  | Some sp => negb (memb sp (oin s (pparent s sp)) || memb sp (oout s (pparent s sp)) || memb sp (oinout s (pparent s sp)))
   end.
 Definition out_bad (s : state) (q : nat) : bool := negb (is_some (wsource s (pwire s q))).
 Definition obj_bad (s : state) (o : nat) : bool :=
